@@ -215,7 +215,7 @@ func (e *Explorer) explore(prefix []int, used Budget) bool {
 		obs = o.FinalFP
 	}
 	e.Stats.Distinct[obs] = struct{}{}
-	if used.sum() > 0 {
+	if len(prefix) > 0 { // a prefix always ends in a non-default alternative (of any kind)
 		e.Stats.DistinctDev[obs] = struct{}{}
 	}
 	for _, f := range o.Failures {
